@@ -48,11 +48,32 @@ def known_for(prop):
     return {k["id"]: k for k in kf.get("known", []) if k["property"] == prop}
 
 
+def _all_theorems(module, listed):
+    """the SPEC list, completed with every Theorem / Lemma / Corollary of coq/props/<module>.v that it does not
+    name (glue lemmas and tie facts included): all of them go through Print Assumptions"""
+    import re as _re
+    path = os.path.join(lib.COQ, "props", module + ".v")
+    try:
+        src = open(path).read()
+    except OSError:
+        return list(listed)
+    src = _re.sub(r"\(\*.*?\*\)", "", src, flags=_re.S)
+    found = _re.findall(r"^\s*(?:Theorem|Lemma|Corollary)\s+([A-Za-z_][A-Za-z0-9_']*)", src, flags=_re.M)
+    out = list(listed)
+    for nm in found:
+        if nm not in out:
+            out.append(nm)
+    return out
+
+
 def run_property(spec):
     prop = spec["id"]
     t0 = time.time()
     obligations = []      # (kind, name, ok, detail)
     lib.import_luqum()
+    spec = dict(spec)
+    spec["theorems"] = _all_theorems(spec["module"], spec["theorems"])
+    spec["more"] = [dict(e, theorems=_all_theorems(e["module"], e["theorems"])) for e in spec.get("more", [])]
 
     # 1. translator + build of the model (always) and of the proofs
     res_model = lib.build(spec.get("model_targets") or None)
